@@ -18,6 +18,8 @@ type verifStubConn struct {
 	acquired  *verifWire
 	stored    int
 	version   int
+	dialErr   error
+	receive   func(ctx context.Context, subscribe Completed, fn func(message PubSubMessage)) error
 }
 
 var _ conn = (*verifStubConn)(nil)
@@ -62,6 +64,9 @@ func (c *verifStubConn) DoMultiCache(ctx context.Context, multi ...CacheableTTL)
 	return &redisresults{s: rs}
 }
 func (c *verifStubConn) Receive(ctx context.Context, subscribe Completed, fn func(message PubSubMessage)) error {
+	if c.receive != nil {
+		return c.receive(ctx, subscribe, fn)
+	}
 	return nil
 }
 func (c *verifStubConn) DoStream(ctx context.Context, cmd Completed) RedisResultStream {
@@ -80,7 +85,7 @@ func (c *verifStubConn) Version() int {
 func (c *verifStubConn) AZ() string                    { return "" }
 func (c *verifStubConn) Error() error                  { return nil }
 func (c *verifStubConn) Close()                        { c.closed++ }
-func (c *verifStubConn) Dial() error                   { return nil }
+func (c *verifStubConn) Dial() error                   { return c.dialErr }
 func (c *verifStubConn) Override(conn)                 {}
 func (c *verifStubConn) Acquire(ctx context.Context) wire {
 	c.acquired = &verifWire{id: 1}
